@@ -109,6 +109,7 @@ impl<T: Clone + Copy + Zero + Mul<Output = T> + Add<Output = T>> Polynomial<T> {
     #[inline]
     pub fn derivative(&self) -> Polynomial<T> {
         let mut p = Polynomial::<T>::empty();
+        if self.coeffs.is_empty() { return p; } // the derivative of the zero polynomial is the zero polynomial
         let degree = self.degree().unwrap(); //TODO unwrap
         p.coeffs = vec![ T::zero(); degree ];
         for i in 0..degree {
